@@ -144,6 +144,27 @@ CHECKS["C12"] = dict(
     technique="bounded symbolic execution of the real geometry generation with symbolic parameters + z3 vs the documented curve; replay on real code",
     ref="5/C12")
 
+CHECKS["C04"] = dict(
+    text="Twin run of the numeric pipeline (Earth-frame assembly, invariant flow properties, residual for an arbitrary circulation, load integration in body/stability/wind frames, per segment) on an "
+         "aircraft and on its mirror image (sides swapped, CG-y negated) in the mirrored state (orientation, position, velocity, wind reflected; rates reflected as a pseudo-vector), all state "
+         "symbolic: every cut array is the reflected one (moments as pseudo-vectors, rows permuted by matching reflected control points), the residual rows are equal and Fx,Fz,My,CL,CD,.. equal / "
+         "Fy,Mx,Mz,CS,.. negated in every frame. The body-frame geometry of both aircraft comes from the real constructors and is compared under the reflection (1e-12).",
+    note="Members m1 (right-only), g6 (left wing mounted with y_offset + tail placed from its root), thorough: g3, g1 (self-mirror), g2 (90 deg fin, Reid); no control deflections (sign of antisymmetric controls: C15); "
+         "geometry generation for arbitrary descriptions: C12; uniqueness of the lifting-line root outside.",
+    technique="relational bounded symbolic execution (mirror twin with cut points, row permutation and atom search-alignment) + z3 polynomial identities; replay on real code",
+    ref="9.6")
+
+CHECKS["C05"] = dict(
+    text="Twin runs of the numeric pipeline with run B rescaled by a symbolic positive factor: speed (velocity, wind, rates x s; circulation x s) and density (x r). Every cut array scales with its exponent, "
+         "the residual with s^2 / 1, forces and moments with s^2 / r, and every coefficient is equal, in all frames, total and per segment (z3, all states, all factors). The length-scaling clause is covered "
+         "only for the geometry generator: the real constructors run on the description scaled by 2 and 3 must store k^p x the original arrays (concrete, 1e-12 relative; Reid blending, joint length, Kuchemann "
+         "offset); a mismatch is replayed with real solves at k = 2, 0.5, 3.",
+    note="PARTIAL: the symbolic pipeline twin for length scaling (kept in checks/C05.py) did not discharge within the session and is outside the claim. Section data: uninterpreted functions of angle of attack and "
+         "flap state only (the Re/Mach-independence premise). Member r1 (one-sided swept wing with Reid corrections, N=3) for the twins; r1, r2 (Kuchemann), g2 (+ g3, g4 thorough) for the generator. "
+         "Nondimensional derivatives and root uniqueness outside.",
+    technique="relational bounded symbolic execution (scaling twins with cut points and homogeneity rules for atom alignment) + z3; concrete generator homogeneity with replay on real code for length",
+    ref="9.6")
+
 NOT_APPLICABLE = {
     "C18": "classical lifting-line limits: a convergence statement about the N>=20 discrete solution (value and rate under grid refinement); no bounded SMT encoding of the 40x40 transcendental system is within reach and the small N the engine handles is where the claim is not expected to hold",
 }
